@@ -1,6 +1,8 @@
 import OasisModel.NodeDB.Spec
 import OasisModel.NodeDB.Badger
 import OasisModel.NodeDB.Pruner
+import OasisModel.NodeDB.PathBadger
+import OasisProofs.Helpers.PathBadger
 /-
 C06 — finalized storage versions stay fully readable until pruned (PARTIAL).
 
@@ -797,6 +799,464 @@ theorem prune_succeeds_with_lone_empty_root :
 
 end BadgerThms
 
+/-! ## Part B2 — the pathbadger bookkeeping model
+
+Histories of the operations of `OasisModel.NodeDB.PathBadger`.  The only hypothesis is about what
+a tree hands to a batch that creates a root (`batchOK`: the candidate derives from a finalized root
+or from nothing; fresh distinct keys of the batch's version; every child pointer points to a put
+node or to a kept node of the old tree with the recorded hash; a kept node keeps its children) —
+dbdrv evaluates exactly this predicate on every commit of the real tree. -/
+section PathBadgerThms
+open PathBadger OasisProofs.PathBadgerH
+
+inductive POp where
+  | commit (old new : Root) (b : Batch)
+  | finalize (v : Nat) (chosen : List Root)
+  | prune (v : Nat)
+
+def pstep (s : PathBadger.St) : POp → PathBadger.St
+  | .commit o n b => (PathBadger.commit s o n b).2
+  | .finalize v ch => (PathBadger.finalize s v ch).2
+  | .prune v => (PathBadger.prune s v).2
+
+/-- A commit that creates a root carries a batch a tree can produce. -/
+def Admissible (s : PathBadger.St) : POp → Prop
+  | .commit o n b =>
+    newBatchRes s o n = .ok → Spec.follows n o = true → PathBadger.finalizedGE s n.ver = false →
+      PathBadger.rootVal s n.ver (n.typ, n.hash) = none → batchOK s o n b = true
+  | _ => True
+
+def AdmissibleRun : PathBadger.St → List POp → Prop
+  | _, [] => True
+  | s, op :: ops => Admissible s op ∧ AdmissibleRun (pstep s op) ops
+
+def prun (s : PathBadger.St) (ops : List POp) : PathBadger.St := ops.foldl pstep s
+
+theorem commitCtx_of_guards {s : PathBadger.St} {o n : Root} (h1 : newBatchRes s o n = .ok)
+    (h2 : Spec.follows n o = true) (h3 : PathBadger.finalizedGE s n.ver = false)
+    (h4 : PathBadger.rootVal s n.ver (n.typ, n.hash) = none) : CommitCtx s o n := by
+  have ht : n.typ = o.typ := by
+    simp only [Spec.follows, Bool.and_eq_true, beq_iff_eq] at h2; exact h2.1
+  unfold newBatchRes at h1
+  by_cases hv : (!(n.ver == o.ver || n.ver == o.ver + 1)) = true
+  · simp [hv] at h1
+  · simp only [hv, Bool.false_eq_true, if_false] at h1
+    have hvv : n.ver = o.ver ∨ n.ver = o.ver + 1 := by
+      cases hb : (n.ver == o.ver || n.ver == o.ver + 1) with
+      | false => simp [hb] at hv
+      | true => simpa using hb
+    by_cases h0 : (o.hash != 0) = true
+    · simp only [h0, if_true] at h1
+      by_cases hio : (o.typ == 1) = true
+      · simp [hio] at h1
+      · simp only [hio, Bool.false_eq_true, if_false] at h1
+        by_cases hsame : (o.ver == n.ver) = true
+        · simp [hsame] at h1
+        · simp only [hsame, Bool.false_eq_true, if_false] at h1
+          by_cases hnone : (PathBadger.rootVal s o.ver (o.typ, o.hash)).isNone = true
+          · simp [hnone] at h1
+          · refine ⟨ht, h3, h4, fun _ => ?_, fun _ => by simpa using hio, fun _ => ?_⟩
+            · have : ¬ o.ver = n.ver := by simpa using hsame
+              omega
+            · cases hx : PathBadger.rootVal s o.ver (o.typ, o.hash) with
+              | none => simp [hx] at hnone
+              | some x => rfl
+    · have hz : o.hash = 0 := by simpa using h0
+      exact ⟨ht, h3, h4, fun hne => absurd hz hne, fun hne => absurd hz hne, fun hne => absurd hz hne⟩
+
+/-- One step of an admissible history preserves the invariant. -/
+theorem pathbadger_inv_step (s : PathBadger.St) (op : POp) (h : Inv s) (ha : Admissible s op) :
+    Inv (pstep s op) := by
+  cases op with
+  | commit o n b =>
+    simp only [pstep, PathBadger.commit]
+    cases h1 : newBatchRes s o n with
+    | err e => exact h
+    | restricted => exact h
+    | ok =>
+      simp only
+      by_cases h2 : (!Spec.follows n o) = true
+      · simp only [h2, if_true]; exact inv_bumpSeq s _ _ h
+      · simp only [h2, Bool.false_eq_true, if_false]
+        by_cases h3 : PathBadger.finalizedGE s n.ver = true
+        · simp only [h3, if_true]; exact inv_bumpSeq s _ _ h
+        · simp only [h3, Bool.false_eq_true, if_false]
+          by_cases h4 : (PathBadger.rootVal s n.ver (n.typ, n.hash)).isSome = true
+          · simp only [h4, if_true]; exact inv_bumpSeq s _ _ h
+          · simp only [h4, Bool.false_eq_true, if_false]
+            have hf : Spec.follows n o = true := by simpa using h2
+            have hnf : PathBadger.finalizedGE s n.ver = false := by simpa using h3
+            have hnone : PathBadger.rootVal s n.ver (n.typ, n.hash) = none := by
+              cases hx : PathBadger.rootVal s n.ver (n.typ, n.hash) with
+              | none => rfl
+              | some x => simp [hx] at h4
+            exact inv_commitSt s o n b (commitCtx_of_guards h1 hf hnf hnone)
+              (batchOK_hyp (ha h1 hf hnf hnone)) h
+  | finalize v ch =>
+    simp only [pstep, PathBadger.finalize]
+    cases h1 : finalizeRes s v ch with
+    | err e => exact h
+    | restricted => exact h
+    | ok => exact inv_finalizeSt s v ch (finalizeRes_ok h1) h
+  | prune v =>
+    simp only [pstep, PathBadger.prune]
+    cases h1 : PathBadger.pruneErr s v with
+    | some e => exact h
+    | none => exact inv_pruneSt s v h1 h
+
+theorem pathbadger_inv_run (s : PathBadger.St) (ops : List POp) (h : Inv s) (ha : AdmissibleRun s ops) :
+    Inv (prun s ops) := by
+  induction ops generalizing s with
+  | nil => exact h
+  | cons op ops ih => exact ih (pstep s op) (pathbadger_inv_step s op h ha.1) ha.2
+
+/-- **readable_inv and no_false_root for pathbadger, every admissible history.** After any history
+of commits (several competing candidates per version with any sequence numbers, unchanged and empty
+roots), finalizations (whatever is discarded, whichever candidate is chosen) and prunes, every root
+the database reports — `HasRoot` is true: every finalized root of a retained version, and every
+pending root — reads back completely, and every node it returns carries exactly the hash recorded
+in the pointer that led to it (`read` is `ok`, never `notFound`, never `foreign`): the contents
+returned under a root hash to that root. -/
+theorem pathbadger_readable_inv (ops : List POp) (ha : AdmissibleRun PathBadger.init ops) (r : Root)
+    (hr : PathBadger.hasRoot (prun PathBadger.init ops) r = true) :
+    PathBadger.read (prun PathBadger.init ops) r = .ok := by
+  have hinv := pathbadger_inv_run PathBadger.init ops inv_init ha
+  by_cases h0 : (r.hash == 0) = true
+  · unfold PathBadger.read; simp [h0]
+  · unfold PathBadger.hasRoot at hr
+    simp only [h0, Bool.false_or, Bool.and_eq_true, decide_eq_true_eq] at hr
+    obtain ⟨rv, hrv⟩ := Option.isSome_iff_exists.1 hr.2
+    have hc := hinv.closed r.ver (r.typ, r.hash) rv hrv hr.1
+    exact read_ok_of_closed _ r _ hc hr.1
+
+/-- In particular a finalized root stays readable through everything that happens later, until
+its version is pruned: `HasRoot` of a root can only turn false by a Finalize of its own version
+that discards it or by a Prune that moves the window past its version (`pathbadger_prune_exact`). -/
+theorem pathbadger_no_false_root (ops : List POp) (ha : AdmissibleRun PathBadger.init ops) (r : Root)
+    (hr : PathBadger.hasRoot (prun PathBadger.init ops) r = true) :
+    PathBadger.read (prun PathBadger.init ops) r ≠ .foreign := by
+  rw [pathbadger_readable_inv ops ha r hr]; simp
+
+/-- **prune_exact (pathbadger).** A successful `Prune(v)` is accepted only for the earliest,
+finalized, non-last version; afterwards nothing of version `v` is reported, the window starts at
+`v+1`, the last finalized version and every root of a later version are untouched. -/
+theorem pathbadger_prune_exact (s : PathBadger.St) (v : Nat) (h : (PathBadger.prune s v).1 = .ok) :
+    s.earliest = v ∧ (∃ l, s.last = some l ∧ v < l) ∧
+    (PathBadger.prune s v).2.earliest = v + 1 ∧ (PathBadger.prune s v).2.last = s.last ∧
+    (∀ r : Root, r.ver = v → r.hash ≠ 0 → PathBadger.hasRoot (PathBadger.prune s v).2 r = false) ∧
+    PathBadger.rootsFor (PathBadger.prune s v).2 v = [] ∧
+    (∀ r : Root, v < r.ver → PathBadger.hasRoot (PathBadger.prune s v).2 r = PathBadger.hasRoot s r) := by
+  unfold PathBadger.prune at h ⊢
+  cases he : PathBadger.pruneErr s v with
+  | some e => simp [he] at h
+  | none =>
+    simp only
+    obtain ⟨l, hl, hlt, hearl⟩ := OasisProofs.PathBadgerH.pruneErr_none he
+    refine ⟨hearl.symm, ⟨l, hl, hlt⟩, rfl, rfl, ?_, ?_, ?_⟩
+    · intro r hr h0
+      unfold PathBadger.hasRoot
+      have he' : (pruneSt s v).earliest = v + 1 := rfl
+      rw [he']
+      have : decide (v + 1 ≤ r.ver) = false := by simp; omega
+      simp [h0, this]
+    · unfold PathBadger.rootsFor
+      simp [pruneSt]
+    · intro r hr
+      unfold PathBadger.hasRoot
+      rw [rootVal_pruneSt]
+      have hne : ¬ r.ver = v := by omega
+      have he' : (pruneSt s v).earliest = v + 1 := rfl
+      rw [he']
+      have d1 : decide (v + 1 ≤ r.ver) = true := by simp; omega
+      have d2 : decide (s.earliest ≤ r.ver) = true := by simp; omega
+      simp [hne, d1, d2]
+
+/-! ### refinement of the contract -/
+
+/-- The pathbadger state `p` and the contract state `sp` agree on the window and on which roots of
+the window are reported. -/
+def PRel (p : PathBadger.St) (sp : Spec.St) : Prop :=
+  sp.last = p.last ∧ sp.earliest = p.earliest ∧
+  ∀ r : Root, p.earliest ≤ r.ver →
+    Spec.isPresent sp r = (PathBadger.rootVal p r.ver (r.typ, r.hash)).isSome
+
+theorem isPresent_append (sp : Spec.St) (e : Root × Contents) (r : Root) :
+    Spec.isPresent { sp with present := sp.present ++ [e] } r = (Spec.isPresent sp r || e.1 == r) := by
+  simp [Spec.isPresent, List.any_append]
+
+theorem isPresent_filter (l : List (Root × Contents)) (q : Root → Bool) (r : Root) :
+    (l.filter (fun e => q e.1)).any (fun e => e.1 == r) = (l.any (fun e => e.1 == r) && q r) := by
+  induction l with
+  | nil => rfl
+  | cons a t ih =>
+    by_cases hq : q a.1 = true
+    · simp only [List.filter, hq, List.any_cons, ih]
+      by_cases ha : (a.1 == r) = true
+      · have : a.1 = r := by simpa using ha
+        simp [ha, ← this, hq]
+      · simp [ha]
+    · simp only [List.filter, hq, List.any_cons, ih]
+      by_cases ha : (a.1 == r) = true
+      · have : a.1 = r := by simpa using ha
+        rw [this] at hq
+        simp [hq]
+      · simp [ha]
+
+theorem pfinalizedGE_eq {p : PathBadger.St} {sp : Spec.St} (h : sp.last = p.last) (v : Nat) :
+    Spec.finalizedGE sp v = PathBadger.finalizedGE p v := by
+  unfold Spec.finalizedGE PathBadger.finalizedGE
+  rw [h]
+
+/-- A version that is not finalized lies inside the window. -/
+theorem window_of_notfin {p : PathBadger.St} (hinv : Inv p) {v : Nat} (h : PathBadger.finalizedGE p v = false) :
+    p.earliest ≤ v := by
+  unfold PathBadger.finalizedGE at h
+  cases hl : p.last with
+  | none => rw [hinv.nolast hl]; omega
+  | some l =>
+    have := hinv.window l hl
+    simp only [hl, decide_eq_false_iff_not] at h
+    omega
+
+/-- **pathbadger refines the contract (Commit).** Whenever the backend model accepts a commit, the
+contract accepts it too, and the reported roots keep corresponding. -/
+theorem pathbadger_refines_spec_commit (p : PathBadger.St) (sp : Spec.St) (o n : Root) (b : Batch) (c : Contents)
+    (hinv : Inv p) (hrel : PRel p sp) (hok : (PathBadger.commit p o n b).1 = .ok) :
+    ∃ sp', Spec.commit sp o n c = .ok sp' ∧ PRel (PathBadger.commit p o n b).2 sp' := by
+  obtain ⟨hl, he, hp⟩ := hrel
+  unfold PathBadger.commit at hok ⊢
+  cases h1 : newBatchRes p o n with
+  | err e => simp [h1] at hok
+  | restricted => simp [h1] at hok
+  | ok =>
+    simp only [h1] at hok ⊢
+    by_cases h2 : (!Spec.follows n o) = true
+    · simp [h2] at hok
+    · simp only [h2, Bool.false_eq_true, if_false] at hok ⊢
+      by_cases h3 : PathBadger.finalizedGE p n.ver = true
+      · simp [h3] at hok
+      · simp only [h3, Bool.false_eq_true, if_false] at hok ⊢
+        have hf : Spec.follows n o = true := by simpa using h2
+        have hnf : PathBadger.finalizedGE p n.ver = false := by simpa using h3
+        have hwn := window_of_notfin hinv hnf
+        have hsf : Spec.finalizedGE sp n.ver = false := by rw [pfinalizedGE_eq hl]; exact hnf
+        by_cases h4 : (PathBadger.rootVal p n.ver (n.typ, n.hash)).isSome = true
+        · -- re-commit of an existing root: the contract returns its state unchanged
+          simp only [h4, if_true]
+          have hpres : Spec.isPresent sp n = true := by rw [hp n hwn]; exact h4
+          refine ⟨sp, ?_, hl, he, hp⟩
+          unfold Spec.commit Spec.commitErr
+          simp [hf, hsf, hpres]
+        · simp only [h4, Bool.false_eq_true, if_false]
+          have hnone : PathBadger.rootVal p n.ver (n.typ, n.hash) = none := by
+            cases hx : PathBadger.rootVal p n.ver (n.typ, n.hash) with
+            | none => rfl
+            | some x => simp [hx] at h4
+          have hctx := commitCtx_of_guards h1 hf hnf hnone
+          have hnp : Spec.isPresent sp n = false := by rw [hp n hwn]; simpa using h4
+          -- the old root, if any, is a reported root of the window
+          have hold : o.hash ≠ 0 → p.earliest ≤ o.ver ∧ Spec.isPresent sp o = true := by
+            intro hne
+            have hnext := hctx.next hne
+            have hwo : p.earliest ≤ o.ver := by
+              unfold PathBadger.finalizedGE at hnf
+              cases hl' : p.last with
+              | none => rw [hinv.nolast hl']; omega
+              | some l =>
+                have := hinv.window l hl'
+                simp only [hl', decide_eq_false_iff_not] at hnf
+                omega
+            exact ⟨hwo, by rw [hp o hwo]; exact hctx.oldroot hne⟩
+          refine ⟨{ sp with present := sp.present ++ [(n, c)] }, ?_, hl, he, ?_⟩
+          · unfold Spec.commit Spec.commitErr
+            simp only [hf, hsf, hnp, Bool.not_true, Bool.false_eq_true, if_false]
+            by_cases h0 : o.hash = 0
+            · simp [h0]
+            · obtain ⟨hwo, hpo⟩ := hold h0
+              have : ¬ o.ver < sp.earliest := by rw [he]; omega
+              simp [h0, hpo, this]
+          · intro r hr
+            rw [isPresent_append, rootVal_commitSt]
+            by_cases heq : (n.ver, (n.typ, n.hash)) = (r.ver, (r.typ, r.hash))
+            · have : n = r := by
+                obtain ⟨h1', h2'⟩ := Prod.mk.inj heq
+                obtain ⟨h3', h4'⟩ := Prod.mk.inj h2'
+                cases n; cases r; simp_all
+              simp [heq, this]
+            · have : ¬ n = r := fun e => heq (by rw [e])
+              have hb : (n == r) = false := by simpa using this
+              simp only [heq, if_false, hb, Bool.or_false]
+              exact hp r hr
+
+/-- **pathbadger refines the contract (Finalize)**, with the backend's witness `keep` = the chosen
+roots that exist: everything else of that version is discarded. -/
+theorem pathbadger_refines_spec_finalize (p : PathBadger.St) (sp : Spec.St) (v : Nat) (ch : List Root)
+    (hinv : Inv p) (hrel : PRel p sp) (hok : (PathBadger.finalize p v ch).1 = .ok) :
+    let keep := ch.filter (fun r => Spec.isPresent sp r)
+    Spec.keepOk sp v ch keep = true ∧
+    ∃ sp', Spec.finalize sp v ch keep = .ok sp' ∧ PRel (PathBadger.finalize p v ch).2 sp' := by
+  obtain ⟨hl, he, hp⟩ := hrel
+  simp only
+  unfold PathBadger.finalize at hok ⊢
+  cases h1 : finalizeRes p v ch with
+  | err e => simp [h1] at hok
+  | restricted => simp [h1] at hok
+  | ok =>
+    simp only
+    have hfo := finalizeRes_ok h1
+    -- unpack the remaining guards of finalizeRes
+    have hguards : ch.isEmpty = false ∧ (∀ r ∈ ch, r.ver = v) ∧
+        (∀ r ∈ ch, r.hash ≠ 0 → (PathBadger.rootVal p v (r.typ, r.hash)).isSome = true) := by
+      unfold finalizeRes at h1
+      by_cases g1 : ch.isEmpty = true
+      · simp [g1] at h1
+      · simp only [g1] at h1
+        by_cases g2 : PathBadger.finalizedGE p v = true
+        · simp [g2] at h1
+        · simp only [g2] at h1
+          by_cases g3 : notNext p v = true
+          · simp [g3] at h1
+          · simp only [g3] at h1
+            by_cases g4 : ch.any (fun r => r.ver != v) = true
+            · simp [g4] at h1
+            · simp only [g4] at h1
+              by_cases g5 : (!nodupNat (ch.map (·.typ))) = true
+              · simp [g5] at h1
+              · simp only [g5] at h1
+                by_cases g6 : ch.any (fun r => r.hash != 0 && (PathBadger.rootVal p v (r.typ, r.hash)).isNone) = true
+                · simp [g6] at h1
+                · refine ⟨by simpa using g1, ?_, ?_⟩
+                  · intro r hr
+                    simp only [Bool.not_eq_true, List.any_eq_false] at g4
+                    simpa using g4 r hr
+                  · intro r hr h0
+                    simp only [Bool.not_eq_true, List.any_eq_false] at g6
+                    have := g6 r hr
+                    cases hx : PathBadger.rootVal p v (r.typ, r.hash) with
+                    | none => simp [hx, h0] at this
+                    | some x => rfl
+    obtain ⟨gne, gver, gex⟩ := hguards
+    have hwv := window_of_notfin hinv hfo.notfin
+    have hsf : Spec.finalizedGE sp v = false := by rw [pfinalizedGE_eq hl]; exact hfo.notfin
+    have hgap : Spec.gapBefore sp v = false := by
+      unfold Spec.gapBefore
+      rw [hl]
+      cases hl' : p.last with
+      | none => rfl
+      | some l => have := hfo.next l hl'; simp; omega
+    refine ⟨?_, ?_⟩
+    · unfold Spec.keepOk
+      simp only [Bool.and_eq_true, List.all_eq_true, List.mem_filter, List.contains_eq_mem, decide_eq_true_eq,
+        beq_iff_eq]
+      exact ⟨fun r hr => hr, fun r hr => ⟨gver r hr.1, hr.2⟩⟩
+    · refine ⟨_, ?_, ?_⟩
+      · unfold Spec.finalize Spec.finalizeErr
+        have hvm : ch.any (fun r => r.ver != v) = false := by
+          rw [List.any_eq_false]; intro r hr; simpa using gver r hr
+        have hrn : ch.any (fun r => r.hash != 0 && !Spec.isPresent sp r) = false := by
+          rw [List.any_eq_false]
+          intro r hr
+          by_cases h0 : r.hash = 0
+          · simp [h0]
+          · have hv := gver r hr
+            have := gex r hr h0
+            have hpr : Spec.isPresent sp r = true := by
+              rw [hp r (by rw [hv]; exact hwv), hv]; exact this
+            simp [hpr]
+        simp only [gne, hsf, hgap, hvm, hrn, Bool.false_eq_true, if_false]
+      · refine ⟨rfl, ?_, ?_⟩
+        · show (if sp.last.isNone then v else sp.earliest) = (finalizeSt p v ch).earliest
+          simp only [finalizeSt, hl, he]
+        · intro r hr
+          have hwr : p.earliest ≤ r.ver := by
+            simp only [finalizeSt] at hr
+            cases hl' : p.last with
+            | none => rw [hinv.nolast hl']; omega
+            | some l => simpa [hl'] using hr
+          show (sp.present.filter (fun e => e.1.ver != v || (ch.filter (fun r => Spec.isPresent sp r)).contains e.1)).any
+              (fun e => e.1 == r) = _
+          rw [isPresent_filter sp.present (fun x => x.ver != v || (ch.filter (fun r => Spec.isPresent sp r)).contains x) r]
+          rw [rootVal_finalizeSt]
+          have hpr := hp r hwr
+          unfold Spec.isPresent at hpr
+          rw [hpr]
+          by_cases hv : r.ver = v
+          · -- a root of the finalized version stays iff it was chosen
+            have hvb : (r.ver != v) = false := by simpa using hv
+            simp only [hv, hvb, Bool.false_or, true_and]
+            by_cases hsome : (PathBadger.rootVal p v (r.typ, r.hash)).isSome = true
+            · have hpres : Spec.isPresent sp r = true := by
+                rw [hp r hwr, hv]; exact hsome
+              have hmem : (ch.filter (fun r => Spec.isPresent sp r)).contains r = isFin ch (r.typ, r.hash) := by
+                by_cases hin : r ∈ ch
+                · have h1' : (ch.filter (fun r => Spec.isPresent sp r)).contains r = true := by
+                    simp [List.mem_filter, hin, hpres]
+                  have h2' : isFin ch (r.typ, r.hash) = true := by
+                    simp only [isFin, List.any_eq_true, beq_iff_eq]
+                    exact ⟨r, hin, rfl⟩
+                  rw [h1', h2']
+                · have h1' : (ch.filter (fun r => Spec.isPresent sp r)).contains r = false := by
+                    simp [List.mem_filter, hin]
+                  have h2' : isFin ch (r.typ, r.hash) = false := by
+                    cases hf : isFin ch (r.typ, r.hash) with
+                    | false => rfl
+                    | true =>
+                      exfalso
+                      simp only [isFin, List.any_eq_true, beq_iff_eq] at hf
+                      obtain ⟨r', hr', heq⟩ := hf
+                      have hv' := gver r' hr'
+                      obtain ⟨e1, e2⟩ := Prod.mk.inj heq
+                      have : r' = r := by cases r'; cases r; simp_all
+                      exact hin (this ▸ hr')
+                  rw [h1', h2']
+              rw [hmem]
+              by_cases hf : isFin ch (r.typ, r.hash) = true
+              · have : ¬ (r.typ, r.hash) ∈ (finPlan p v ch).discarded := by
+                  rw [mem_discarded]; simp [hf]
+                simp [hf, this, hsome]
+              · have hff : isFin ch (r.typ, r.hash) = false := by simpa using hf
+                have : (r.typ, r.hash) ∈ (finPlan p v ch).discarded := by
+                  rw [mem_discarded]; exact ⟨hsome, hff⟩
+                simp [hff, this, hsome]
+            · have hn : PathBadger.rootVal p v (r.typ, r.hash) = none := by
+                cases hx : PathBadger.rootVal p v (r.typ, r.hash) with
+                | none => rfl
+                | some x => simp [hx] at hsome
+              simp [hn]
+          · have hvb : (r.ver != v) = true := by simpa using hv
+            simp [hv, hvb]
+
+/-- **pathbadger refines the contract (Prune).** -/
+theorem pathbadger_refines_spec_prune (p : PathBadger.St) (sp : Spec.St) (v : Nat)
+    (hrel : PRel p sp) (hok : (PathBadger.prune p v).1 = .ok) :
+    ∃ sp', Spec.prune sp v = .ok sp' ∧ PRel (PathBadger.prune p v).2 sp' := by
+  obtain ⟨hl, he, hp⟩ := hrel
+  unfold PathBadger.prune at hok ⊢
+  cases h1 : PathBadger.pruneErr p v with
+  | some e => simp [h1] at hok
+  | none =>
+    simp only
+    have hs : Spec.pruneErr sp v = none := by
+      unfold Spec.pruneErr
+      unfold PathBadger.pruneErr at h1
+      rw [hl, he]
+      exact h1
+    refine ⟨{ sp with present := sp.present.filter (fun e => e.1.ver != v)
+                       fin := sp.fin.filter (fun r => r.ver != v)
+                       earliest := v + 1 }, by unfold Spec.prune; rw [hs], hl, rfl, ?_⟩
+    intro r hr
+    have hgt : v < r.ver := by simp only [pruneSt] at hr; omega
+    obtain ⟨l, _, _, hearl⟩ := OasisProofs.PathBadgerH.pruneErr_none h1
+    show (sp.present.filter (fun e => e.1.ver != v)).any (fun e => e.1 == r) = _
+    rw [isPresent_filter sp.present (fun x => x.ver != v) r, rootVal_pruneSt]
+    have hne : ¬ r.ver = v := by omega
+    have hvb : (r.ver != v) = true := by simpa using hne
+    have := hp r (by omega)
+    unfold Spec.isPresent at this
+    simp [hne, hvb, this]
+
+end PathBadgerThms
+
 /-! ## Part C — the ABCI pruner arithmetic (`abci/prune.go:117-200`) -/
 section PrunerThms
 open Pruner
@@ -967,6 +1427,30 @@ example : (Pruner.prune 2 10 1 (fun _ => false) (fun _ => .ok) ⟨0, 0⟩).asked
     (Pruner.prune 2 10 1 (fun v => v == 4) (fun _ => .ok) ⟨0, 0⟩).st = ⟨4, 4⟩ ∧
     (Pruner.prune 2 10 1 (fun _ => false) (fun _ => .ok) ⟨0, 0⟩ false).st = ⟨8, 1⟩ ∧
     (Pruner.prune 2 10 1 (fun _ => false) (fun _ => .ok) ⟨0, 0⟩ false).retainedAtSync = some 1 := by
+  decide
+
+/-- pathbadger: an admissible history with two competing candidates in version 1 (sequence numbers
+0 and 1), the SECOND one finalized (copy-then-delete path), and a derived root in version 2: every
+batch satisfies `batchOK`, every operation succeeds, the finalized roots read back, the discarded
+candidate is gone. -/
+example :
+    let a1 : PathBadger.Batch := { puts := [((1, 1), ⟨1, []⟩), ((1, 2), ⟨2, []⟩)], removed := [],
+                                   root := some ⟨10, [((1, 1), 1), ((1, 2), 2)]⟩ }
+    let a2 : PathBadger.Batch := { puts := [((1, 1), ⟨3, []⟩)], removed := [], root := some ⟨20, [((1, 1), 3)]⟩ }
+    let a3 : PathBadger.Batch := { puts := [((2, 1), ⟨4, []⟩)], removed := [],
+                                   root := some ⟨21, [((1, 1), 3), ((2, 1), 4)]⟩ }
+    let s0 := PathBadger.init
+    let s1 := (PathBadger.commit s0 ⟨1, 0, 0⟩ ⟨1, 0, 10⟩ a1).2
+    let s2 := (PathBadger.commit s1 ⟨1, 0, 0⟩ ⟨1, 0, 20⟩ a2).2
+    let s3 := (PathBadger.finalize s2 1 [⟨1, 0, 20⟩]).2
+    let s4 := (PathBadger.commit s3 ⟨1, 0, 20⟩ ⟨2, 0, 21⟩ a3).2
+    let s5 := (PathBadger.finalize s4 2 [⟨2, 0, 21⟩]).2
+    PathBadger.batchOK s0 ⟨1, 0, 0⟩ ⟨1, 0, 10⟩ a1 = true ∧ PathBadger.batchOK s1 ⟨1, 0, 0⟩ ⟨1, 0, 20⟩ a2 = true ∧
+    PathBadger.batchOK s3 ⟨1, 0, 20⟩ ⟨2, 0, 21⟩ a3 = true ∧
+    PathBadger.seqOf s2 1 (0, 20) = 1 ∧ s5.last = some 2 ∧
+    PathBadger.hasRoot s5 ⟨1, 0, 10⟩ = false ∧
+    PathBadger.read s5 ⟨1, 0, 20⟩ = .ok ∧ PathBadger.read s5 ⟨2, 0, 21⟩ = .ok ∧
+    (PathBadger.prune s5 1).1 = .ok := by
   decide
 
 end NonVacuity
